@@ -40,12 +40,12 @@ FlagIdx(f) ==
     [] f = "D_LOCK_GARBAGE" -> 7 [] f = "D_GGLW_PARSE" -> 8 [] f = "D_CAS_SHAPED" -> 9 [] f = "D_NULL_RELOAD" -> 10 [] f = "D_ERR_CLOSES" -> 11 [] f = "D_UNSUB_TRAIL" -> 12
     [] f = "D_DISC_NOT_FORWARDED" -> 13 [] f = "D_SYNC_DROPS_REGS" -> 14 [] f = "D_IMPORT_VERSION" -> 15
     [] f = "D_FLAGS_NO_PERSIST" -> 16 [] f = "D_REDB_VERSION" -> 17
-    [] f = "D_UNSUBLS_ASYNC" -> 18 [] f = "D_PUB_BUFFER" -> 19 [] f = "D_CAS_OVERFLOW" -> 20 [] OTHER -> 21
-NFlags == 21
+    [] f = "D_UNSUBLS_ASYNC" -> 18 [] f = "D_PUB_BUFFER" -> 19 [] f = "D_CAS_OVERFLOW" -> 20 [] f = "D_REG_DELETE" -> 21 [] OTHER -> 22
+NFlags == 22
 FlagNames == <<"D_CAS_GHOST", "D_HASH_ZERO", "D_LAZY_HASH", "D_SYS_WILDCARD", "D_PUBLISH_SYS",
                "D_IMPORT_NO_LS", "D_LOCK_GARBAGE", "D_GGLW_PARSE", "D_CAS_SHAPED", "D_NULL_RELOAD",
                "D_ERR_CLOSES", "D_UNSUB_TRAIL", "D_DISC_NOT_FORWARDED", "D_SYNC_DROPS_REGS", "D_IMPORT_VERSION",
-               "D_FLAGS_NO_PERSIST", "D_REDB_VERSION", "D_UNSUBLS_ASYNC", "D_PUB_BUFFER", "D_CAS_OVERFLOW", "D_OTHER">>
+               "D_FLAGS_NO_PERSIST", "D_REDB_VERSION", "D_UNSUBLS_ASYNC", "D_PUB_BUFFER", "D_CAS_OVERFLOW", "D_REG_DELETE", "D_OTHER">>
 Flag(f) == f \in Dev /\ TLCSet(FlagIdx(f), TRUE)
 
 INT  == "int"                     \* INTERNAL_CLIENT_ID
